@@ -28,7 +28,7 @@ CHECKS = {
         "itself; rgba = nearest integer of source-over, hsla = truncation over the rounded colour (<= 1.5); complete: 148 keywords x spellings, all #rgb, all 2^24 #rrggbb (thorough), all hex digit pairs. NOT provable with the installed solvers: "
         "regex findall / replace+split tokenisation and float(str) - assumed and exercised by generated class members vs a reference CSS parser (bounded).",
    note=TB + "reference CSS parser in /verif/oracles; tokenisation contract assumed (bounded check).", ref='§8 C07'),
- 'C08': dict(cat='other', tech='contract-based deductive verification of three mechanically extracted blocks of process_nodes_recursive - per-rule accounting, at-rule descent, declaration scan (engine A, z3; API as function symbols with its proved contracts) + bounded run-time contract: the real click command on an enumerated stylesheet corpus judged by independent oracles (engine E)',
+ 'C08': dict(cat='other', tech='contract-based deductive verification of three mechanically extracted blocks of process_nodes_recursive - per-rule accounting, at-rule descent, declaration scan - and of resolve_variable (str-or-None, never raises, every recursion depth) (engine A, z3; API as function symbols with its proved contracts) + bounded run-time contract: the real click command on an enumerated stylesheet corpus judged by independent oracles (engine E)',
    text="per-rule accounting proved on the real statement block (extracted from the AST on every run): exactly one of the three counters +1 on every path incl. exception paths, 'readable' only at ratio >= 7.0/4.5, 'adjusted' only on "
         "success of make_readable(mode, premium) of this pair with the colour written and the colour reported being the API's colour, 'needs attention' listed and nothing written; the @media/@supports branch descends only there, once, forwarding every setting, and rebuilds the content; the declaration scan ends with the LAST color / background-color declaration for lists of any length (loop invariant over a recursive spec function). The file-level clause quantifies over stylesheets as "
         "interpreted by tinycss2 (a proof would be about a model of that library): checked on a generated corpus (every colour spelling, random / light colours, custom properties chained / with fallback / undefined / shared / "
